@@ -377,6 +377,16 @@ pub fn borrow_templates() -> Vec<(&'static str, String, String)> {
         "struct D<'a>(&'a String); impl<'a> Drop for D<'a> { fn drop(&mut self) { let _n = self.0.len(); } } let x = String::from(\"x\"); let _u; _u = triomphe::UniqueArc::new(D(&x));".to_string(),
     ));
     v.push((
+        "Arc<[T]> of Drop elements declared before the data they borrow (dropck)",
+        "struct D<'a>(&'a String); impl<'a> Drop for D<'a> { fn drop(&mut self) { let _n = self.0.len(); } } let _a: triomphe::Arc<[D]>; let x = String::from(\"x\"); _a = triomphe::Arc::from(vec![D(&x)]);".to_string(),
+        "struct D<'a>(&'a String); impl<'a> Drop for D<'a> { fn drop(&mut self) { let _n = self.0.len(); } } let x = String::from(\"x\"); let _a: triomphe::Arc<[D]>; _a = triomphe::Arc::from(vec![D(&x)]);".to_string(),
+    ));
+    v.push((
+        "Arc<HeaderSlice<H,[T]>> with a Drop header declared before the data it borrows (dropck)",
+        "struct D<'a>(&'a String); impl<'a> Drop for D<'a> { fn drop(&mut self) { let _n = self.0.len(); } } let _a; let x = String::from(\"x\"); _a = triomphe::Arc::from_header_and_vec(D(&x), vec![1u8]);".to_string(),
+        "struct D<'a>(&'a String); impl<'a> Drop for D<'a> { fn drop(&mut self) { let _n = self.0.len(); } } let x = String::from(\"x\"); let _a; _a = triomphe::Arc::from_header_and_vec(D(&x), vec![1u8]);".to_string(),
+    ));
+    v.push((
         "ThinArc outlives data its elements borrow",
         "let t; { let x = 5u8; t = triomphe::ThinArc::from_header_and_slice((), &[&x]); } let _n = t.slice.len();".to_string(),
         "let x = 5u8; let t = triomphe::ThinArc::from_header_and_slice((), &[&x]); let _n = t.slice.len();".to_string(),
@@ -467,6 +477,74 @@ pub fn borrow_templates() -> Vec<(&'static str, String, String)> {
     v
 }
 
+/// documented-unsafe functions must stay unsafe: a call outside an unsafe block is rejected (E0133); and the
+/// mutating entry points must keep asking for `&mut` (E0596 on an immutable binding)
+pub fn unsafe_templates() -> Vec<(&'static str, &'static str, String, String)> {
+    let mut v: Vec<(&'static str, &'static str, String, String)> = vec![];
+    let mut u = |name: &'static str, setup: &str, call: &str| {
+        v.push(("unsafe", name, format!("{} let _r = {};", setup, call), format!("{} let _r = unsafe {{ {} }};", setup, call)));
+    };
+    u("Arc::from_raw", "let p = triomphe::Arc::into_raw(triomphe::Arc::new(1u8));", "triomphe::Arc::from_raw(p)");
+    u("Arc::from_raw_slice", "let a: triomphe::Arc<[u8]> = triomphe::Arc::from(vec![1u8]); let p = triomphe::Arc::into_raw(a);", "triomphe::Arc::from_raw_slice(p)");
+    u("ArcBorrow::from_ptr", "let a = triomphe::Arc::new(1u8); let p = triomphe::Arc::as_ptr(&a);", "triomphe::ArcBorrow::from_ptr(p)");
+    u("ThinArc::from_raw", "let p = triomphe::ThinArc::from_header_and_slice(1u8, &[1u16]).into_raw();", "triomphe::ThinArc::<u8, u16>::from_raw(p)");
+    u("Arc<MaybeUninit<T>>::assume_init", "let a = triomphe::Arc::<std::mem::MaybeUninit<u8>>::new_uninit();", "a.assume_init()");
+    u("Arc<[MaybeUninit<T>]>::assume_init", "let a = triomphe::Arc::<[std::mem::MaybeUninit<u8>]>::new_uninit_slice(2);", "a.assume_init()");
+    u("UniqueArc<MaybeUninit<T>>::assume_init", "let a = triomphe::UniqueArc::<u8>::new_uninit();", "triomphe::UniqueArc::assume_init(a)");
+    u("UniqueArc<[MaybeUninit<T>]>::assume_init_slice", "let a = triomphe::UniqueArc::<[std::mem::MaybeUninit<u8>]>::new_uninit_slice(2);", "triomphe::UniqueArc::assume_init_slice(a)");
+    u("UniqueArc<HeaderSlice<H,[MaybeUninit<T>]>>::assume_init_slice_with_header", "let a = triomphe::UniqueArc::<triomphe::HeaderSlice<u8, [std::mem::MaybeUninit<u8>]>>::from_header_and_uninit_slice(1u8, 2);", "a.assume_init_slice_with_header()");
+    let mut m = |name: &'static str, bind: &str, call: &str| {
+        v.push(("mut", name, format!("let a = {}; {};", bind, call), format!("let mut a = {}; {};", bind, call)));
+    };
+    let arc = "triomphe::Arc::new(1u8)";
+    m("Arc::get_mut needs &mut", arc, "let _r = triomphe::Arc::get_mut(&mut a)");
+    m("Arc::make_mut needs &mut", arc, "let _r = triomphe::Arc::make_mut(&mut a)");
+    m("Arc::make_unique needs &mut", arc, "let _r = triomphe::Arc::make_unique(&mut a)");
+    m("Arc::get_unique needs &mut", arc, "let _r = triomphe::Arc::get_unique(&mut a)");
+    m("OffsetArc::make_mut needs &mut", "triomphe::Arc::into_raw_offset(triomphe::Arc::new(1u8))", "let _r = a.make_mut()");
+    m("ThinArc::with_arc_mut needs &mut", "triomphe::ThinArc::from_header_and_slice(1u8, &[1u16])", "a.with_arc_mut(|_x| ())");
+    m("UniqueArc DerefMut needs &mut", "triomphe::UniqueArc::new(1u8)", "*a = 2");
+    m("Arc<MaybeUninit<T>>::as_mut_ptr needs &mut", "triomphe::Arc::<std::mem::MaybeUninit<u8>>::new_uninit()", "let _p = a.as_mut_ptr()");
+    m("UniqueArc<MaybeUninit<T>>::write needs &mut", "triomphe::UniqueArc::<u8>::new_uninit()", "let _r = a.write(1)");
+    m("HeaderSliceWithLengthProtected::slice_mut needs &mut", "triomphe::Arc::protected_from_thin(triomphe::ThinArc::from_header_and_slice(1u8, &[1u16]))", "let _r = triomphe::Arc::get_mut(&mut a).map(|p| { p.slice_mut(); p.header_mut(); })");
+    v
+}
+
+pub fn unsafe_probes() -> Vec<Probe> {
+    let mut out = vec![];
+    for (i, (class, name, neg, pos)) in unsafe_templates().into_iter().enumerate() {
+        let why = if class == "unsafe" { "a documented-unsafe function called outside an unsafe block" } else { "a mutating entry point called on an immutable binding" };
+        out.push(Probe { class, name: format!("uneg_{}", i), body: format!("    {}", neg), expect_reject: true, what: format!("{}: {} [must be rejected]", name, why), nontrivial: true });
+        out.push(Probe { class, name: format!("upos_{}", i), body: format!("    {}", pos), expect_reject: false, what: format!("{} [legal twin, must compile]", name), nontrivial: false });
+    }
+    out
+}
+
+/// names of the `pub unsafe fn`s in /repo/src that no unsafe template mentions (the list above is written by
+/// hand; this keeps it honest without turning a new function into an alarm)
+pub fn unlisted_unsafe_fns() -> Vec<String> {
+    let repo = std::env::var("VERIF_REPO").unwrap_or_else(|_| "/repo".into());
+    let listed: String = unsafe_templates().iter().map(|t| t.2.clone()).collect::<Vec<_>>().join(" ");
+    let mut out = vec![];
+    if let Ok(rd) = std::fs::read_dir(format!("{}/src", repo)) {
+        for e in rd.flatten() {
+            if e.file_name().to_string_lossy() == "verif_hooks.rs" {
+                continue;
+            }
+            let txt = std::fs::read_to_string(e.path()).unwrap_or_default();
+            for l in txt.lines() {
+                if let Some(i) = l.find("pub unsafe fn ") {
+                    let name: String = l[i + 14..].chars().take_while(|c| c.is_alphanumeric() || *c == '_').collect();
+                    if !listed.contains(&format!("{}(", name)) && !out.contains(&name) {
+                        out.push(name);
+                    }
+                }
+            }
+        }
+    }
+    out
+}
+
 const BORROW_CODES: [&str; 13] = ["E0621", "LIFETIME", "E0499", "E0502", "E0505", "E0506", "E0515", "E0521", "E0597", "E0716", "E0373", "E0503", "E0713"];
 
 pub fn borrow_probes() -> Vec<Probe> {
@@ -485,13 +563,31 @@ pub fn borrow_probes() -> Vec<Probe> {
 pub struct Lib {
     pub rlib: PathBuf,
     pub deps: PathBuf,
+    /// Some("+nightly") for the dropck-eyepatch configuration
+    pub toolchain: Option<&'static str>,
 }
 
 /// build /repo (default features, guard off) as an rlib for the probes
 pub fn build_lib() -> Result<Lib, String> {
-    let td = verif_root().join("harness/target/probe");
-    let o = Command::new("cargo")
-        .args(["build", "--release", "--offline", "--manifest-path", &format!("{}/Cargo.toml", std::env::var("VERIF_REPO").unwrap_or_else(|_| "/repo".into())), "--target-dir"])
+    build_lib_with(None, &[], "probe")
+}
+
+/// the nightly-only `unstable_dropck_eyepatch` configuration (`unsafe impl<#[may_dangle] T> Drop for Arc<T>`):
+/// dropck then relies on the PhantomData<T> marker alone
+pub fn build_lib_eyepatch() -> Result<Lib, String> {
+    build_lib_with(Some("+nightly"), &["--features", "unstable_dropck_eyepatch"], "probe-eyepatch")
+}
+
+fn build_lib_with(toolchain: Option<&'static str>, extra: &[&str], dirname: &str) -> Result<Lib, String> {
+    let td = verif_root().join("harness/target").join(dirname);
+    let mut cmd = Command::new("cargo");
+    if let Some(t) = toolchain {
+        cmd.arg(t);
+    }
+    let o = cmd
+        .args(["build", "--release", "--offline", "--manifest-path", &format!("{}/Cargo.toml", std::env::var("VERIF_REPO").unwrap_or_else(|_| "/repo".into()))])
+        .args(extra)
+        .arg("--target-dir")
         .arg(&td)
         .env("RUSTFLAGS", "")
         .env_remove("CARGO_ENCODED_RUSTFLAGS")
@@ -504,7 +600,7 @@ pub fn build_lib() -> Result<Lib, String> {
     if !rlib.exists() {
         return Err("libtriomphe.rlib not found".into());
     }
-    Ok(Lib { rlib, deps: td.join("release/deps") })
+    Ok(Lib { rlib, deps: td.join("release/deps"), toolchain })
 }
 
 pub struct BatchResult {
@@ -526,7 +622,11 @@ pub fn compile_batch(lib: &Lib, dir: &Path, tag: &str, probes: &[&Probe]) -> Res
     }
     let file = dir.join(format!("{}.rs", tag));
     std::fs::write(&file, &src).map_err(|e| e.to_string())?;
-    let o = Command::new("rustc")
+    let mut rustc = Command::new("rustc");
+    if let Some(t) = lib.toolchain {
+        rustc.arg(t);
+    }
+    let o = rustc
         .args(["--edition", "2021", "--crate-type", "lib", "--emit=metadata", "--error-format=json", "-o"])
         .arg(dir.join(format!("{}.rmeta", tag)))
         .arg("-L")
@@ -569,7 +669,12 @@ pub fn compile_batch(lib: &Lib, dir: &Path, tag: &str, probes: &[&Probe]) -> Res
 }
 
 fn verdict(p: &Probe, codes: &[String]) -> Result<(), String> {
-    let allowed: Vec<&str> = if p.class == "auto" { vec!["E0277"] } else { BORROW_CODES.to_vec() };
+    let allowed: Vec<&str> = match p.class {
+        "auto" => vec!["E0277"],
+        "unsafe" => vec!["E0133"],
+        "mut" => vec!["E0596"],
+        _ => BORROW_CODES.to_vec(),
+    };
     if p.expect_reject {
         if codes.is_empty() {
             return Err(format!("ACCEPTED but must be rejected: {}", p.what));
@@ -618,6 +723,14 @@ pub fn generate(tier: Tier, seed: u64) -> Vec<Probe> {
         }
     }
     v.extend(borrow_probes());
+    // the same borrow / dropck templates against the nightly `unstable_dropck_eyepatch` configuration, where
+    // Arc's Drop impl is `#[may_dangle]` and only the PhantomData<T> marker keeps dropck honest
+    for p in borrow_probes() {
+        if p.class == "borrow" {
+            v.push(Probe { class: "borrow-eyepatch", name: format!("ey_{}", p.name), body: p.body.clone(), expect_reject: p.expect_reject, what: format!("[--features unstable_dropck_eyepatch, nightly] {}", p.what), nontrivial: p.nontrivial });
+        }
+    }
+    v.extend(unsafe_probes());
     // random nested payload types
     let n_random = if tier == Tier::Quick { 900 } else { 16_000 };
     let mut cfg = Config::default();
@@ -643,12 +756,26 @@ pub fn run_parent(tier: Tier, seed: u64) -> i32 {
         }
     };
     let probes = generate(tier, seed);
+    let unlisted = unlisted_unsafe_fns();
+    if !unlisted.is_empty() {
+        println!("note: `pub unsafe fn`s in /repo/src without an unsafe-call probe (extend unsafe_templates): {:?}", unlisted);
+    }
     let dir = std::env::temp_dir().join(format!("tv-probes-{}", std::process::id()));
     let _ = std::fs::remove_dir_all(&dir);
     std::fs::create_dir_all(&dir).unwrap();
     // batches per class (trait errors stop the compiler before borrow checking)
+    let lib_ey = match build_lib_eyepatch() {
+        Ok(l) => Some(l),
+        Err(e) => {
+            println!("note: the unstable_dropck_eyepatch probes are skipped (nightly build failed: {})", e.lines().last().unwrap_or(""));
+            None
+        }
+    };
     let mut batches: Vec<Vec<usize>> = vec![];
-    for class in ["auto", "borrow"] {
+    for class in ["auto", "borrow", "unsafe", "mut", "borrow-eyepatch"] {
+        if class == "borrow-eyepatch" && lib_ey.is_none() {
+            continue;
+        }
         let idx: Vec<usize> = (0..probes.len()).filter(|i| probes[*i].class == class).collect();
         for ch in idx.chunks(if class == "auto" { 24 } else { 8 }) {
             batches.push(ch.to_vec());
@@ -670,7 +797,8 @@ pub fn run_parent(tier: Tier, seed: u64) -> i32 {
                     break;
                 }
                 let refs: Vec<&Probe> = batches[bi].iter().map(|i| &probes[*i]).collect();
-                match compile_batch(&lib, &dir, &format!("b{}", bi), &refs) {
+                let use_lib = if refs[0].class == "borrow-eyepatch" { lib_ey.as_ref().unwrap() } else { &lib };
+                match compile_batch(use_lib, &dir, &format!("b{}", bi), &refs) {
                     Ok(r) => {
                         if !r.other.is_empty() {
                             infra.lock().unwrap().extend(r.other.iter().map(|o| format!("batch {}: {}", bi, o)));
@@ -701,7 +829,8 @@ pub fn run_parent(tier: Tier, seed: u64) -> i32 {
     // an apparent violation is confirmed by compiling the probe alone (a batch-mate's error could mask it)
     let mut confirmed: Vec<(usize, String)> = vec![];
     for (pi, m) in violations {
-        match compile_batch(&lib, &dir, &format!("single{}", pi), &[&probes[pi]]) {
+        let use_lib = if probes[pi].class == "borrow-eyepatch" { lib_ey.as_ref().unwrap() } else { &lib };
+        match compile_batch(use_lib, &dir, &format!("single{}", pi), &[&probes[pi]]) {
             Ok(r) => {
                 let codes = r.codes.get(&0).cloned().unwrap_or_default();
                 if let Err(m2) = verdict(&probes[pi], &codes) {
@@ -752,13 +881,13 @@ pub fn run_parent(tier: Tier, seed: u64) -> i32 {
         json!({
             "evaluations": evaluated,
             "distinct_nontrivial": distinct_nt.len(),
-            "rule": "probe programs compiled by rustc (--emit=metadata) against the rlib built from /repo (default features, guard off): (a) the complete grid of 12 handle kinds x witnesses of the four auto-trait classes (u8, Cell<u8>, MutexGuard<'static,u8>, Rc<u8>, *const u8; both parameters independently for two-parameter kinds) x {Send, Sync}; generic probes `fn g<T: B>() { need::<K<T>>() }` for every bound set B of {Send, Sync}; Arc<dyn Trait + bounds>; (b) 32 borrow / lifetime / dropck templates, each with a legal twin that must compile; (c) proptest-generated nested payload types (Option, tuple, array, Box, Vec, triomphe::Arc, std Arc, Mutex, &'static, PhantomData over the witnesses, depth <=3). Oracle: an independent auto-trait model (Arc-likes: Send <=> Sync <=> all payloads Send + Sync; UniqueArc like Box) and the expected reject/accept of each template; rejects must carry E0277 resp. a borrow-check code, accepts no error. Non-trivial: every expected-reject probe, every generic probe, every nested payload. distinct = by probe text.",
+            "rule": "probe programs compiled by rustc (--emit=metadata) against the rlib built from /repo (default features, guard off): (a) the complete grid of 12 handle kinds x witnesses of the four auto-trait classes (u8, Cell<u8>, MutexGuard<'static,u8>, Rc<u8>, *const u8; both parameters independently for two-parameter kinds) x {Send, Sync}; generic probes `fn g<T: B>() { need::<K<T>>() }` for every bound set B of {Send, Sync}; Arc<dyn Trait + bounds>; (b) 58 borrow / lifetime / variance / dropck templates, each with a legal twin that must compile, compiled against the default configuration AND against the nightly `unstable_dropck_eyepatch` configuration (where Arc's Drop impl is #[may_dangle]); (b2) every documented-unsafe public function called outside an unsafe block must be rejected (E0133), every mutating entry point called on an immutable binding must be rejected (E0596), twins with `unsafe {}` / `let mut` must compile; (c) proptest-generated nested payload types (Option, tuple, array, Box, Vec, triomphe::Arc, std Arc, Mutex, &'static, PhantomData over the witnesses, depth <=3). Oracle: an independent auto-trait model (Arc-likes: Send <=> Sync <=> all payloads Send + Sync; UniqueArc like Box) and the expected reject/accept of each template; rejects must carry E0277 resp. a borrow-check code, accepts no error. Non-trivial: every expected-reject probe, every generic probe, every nested payload. distinct = by probe text.",
             "samples": samples,
             "class_histogram": hist,
             "batches": batches.len(),
             "inconclusive": infra,
         }),
-        &["one compiler version (the sandbox's stable rustc), default feature configuration".to_string(), "decides the generated witnesses, generic probes and templates; nothing about programs outside the grammar".to_string()],
+        &["the sandbox's stable rustc with default features; the borrow / dropck templates additionally on nightly with unstable_dropck_eyepatch (skipped with a note if that build fails)".to_string(), "decides the generated witnesses, generic probes and templates; nothing about programs outside the grammar".to_string()],
         start.elapsed().as_secs_f64(),
         confirmed.len() as i64,
     );
@@ -790,14 +919,20 @@ pub fn replay(path: &Path) -> i32 {
         }
     }
     let body = txt.split("# source\n").nth(1).unwrap_or("").to_string();
-    let lib = match build_lib() {
+    let class: &'static str = match m.get("class").map(|s| s.as_str()) {
+        Some("auto") => "auto",
+        Some("unsafe") => "unsafe",
+        Some("mut") => "mut",
+        Some("borrow-eyepatch") => "borrow-eyepatch",
+        _ => "borrow",
+    };
+    let lib = match if class == "borrow-eyepatch" { build_lib_eyepatch() } else { build_lib() } {
         Ok(l) => l,
         Err(e) => {
             eprintln!("{}", e);
             return 2;
         }
     };
-    let class: &'static str = if m.get("class").map(|s| s.as_str()) == Some("auto") { "auto" } else { "borrow" };
     let p = Probe { class, name: "replayed".into(), body, expect_reject: m.get("expect").map(|s| s.as_str()) == Some("reject"), what: m.get("sig").cloned().unwrap_or_default(), nontrivial: true };
     let dir = std::env::temp_dir().join(format!("tv-probe-replay-{}", std::process::id()));
     let _ = std::fs::create_dir_all(&dir);
